@@ -140,6 +140,35 @@ func init() {
 		return r
 	}
 
+	// time.Unix(sec, nsec): with concrete arguments the exact library representation is built; with
+	// symbolic arguments the real body's nanosecond normalisation (64-bit division by 1e9) makes every
+	// later query intractable, so the result is represented like the engine's time.Now instants
+	// (monotonic-flagged wall word, ext = Unix nanoseconds), which UnixNano/Sub/Before/After read back.
+	intrinsics["time.Unix"] = func(m *Machine, fn *ssa.Function, a []value) value {
+		sec, nsec := a[0].(*Term), a[1].(*Term)
+		if sec.IsConst() && nsec.IsConst() {
+			s, n := sec.SVal(), nsec.SVal()
+			if n < 0 || n >= 1e9 {
+				k := n / 1e9
+				s += k
+				n -= k * 1e9
+				if n < 0 {
+					n += 1e9
+					s--
+				}
+			}
+			const unixToInternal = (1969*365 + 1969/4 - 1969/100 + 1969/400) * 86400
+			var loc value = (*value)(nil)
+			if tp := m.prog.ImportedPackage("time"); tp != nil && tp.Var("Local") != nil {
+				loc = m.loadFrom(m.globalAddr(tp.Var("Local")))
+			}
+			return structure{m.tt.Const(64, uint64(n)), m.tt.Const(64, uint64(s+unixToInternal)), loc}
+		}
+		m.stats.Assumes["time.Unix of a symbolic instant is kept as Unix nanoseconds (no calendar normalisation)"]++
+		ns := m.tt.Bin("bvadd", m.tt.Bin("bvmul", sec, m.tt.Const(64, 1000000000)), nsec)
+		return structure{m.tt.Const(64, hasMonotonic), ns, (*value)(nil)}
+	}
+
 	// net.ResolveTCPAddr on "literal-ip:port" (no resolver in the engine): SplitHostPort + ParseIP +
 	// Atoi evaluated natively on the concrete strings. A host that is not an IP literal does not
 	// resolve (error), as it would for names like "<nil>" that no resolver knows.
